@@ -227,6 +227,27 @@ func main() {
 		}
 	}
 
+	// a validator without FixedNow (the production configuration): it reads the clock on every call; claims far from
+	// "now" on either side so that the verdicts do not depend on when the run happens
+	{
+		v := must(cwt.NewValidator(&cwt.ValidatorOpts{ExpectedIssuer: "iss", ClockSkew: time.Minute}))
+		now := uint64(time.Now().Unix())
+		tasks = append(tasks, task{"cwt.Validator/wall-clock", func(i int) []byte {
+			exp := now + 86400
+			if i%3 == 0 {
+				exp = now - 86400
+			}
+			nbf := now - 86400
+			if i%5 == 0 {
+				nbf = now + 86400
+			}
+			c := &cwt.Claims{Issuer: "iss", Expiration: exp, NotBefore: nbf}
+			err := v.Validate(c)
+			err2 := v.ValidateMap(cwt.ClaimsMap{iana.CWTClaimIss: "iss", iana.CWTClaimExp: exp, iana.CWTClaimNbf: nbf})
+			return []byte(fmt.Sprint(err == nil, err2 == nil))
+		}})
+	}
+
 	// sequential reference
 	want := make([][][]byte, len(tasks))
 	for t := range tasks {
